@@ -119,6 +119,8 @@ def run(chk, replay=None):
             for rep in range(reps if n < 200 else max(1, reps // 3)):
                 recs = [random_record(rng, fmt) for _ in range(n)]
                 text, mags = render(fmt, recs, rng)
+                if rep % 3 == 1:
+                    text = text.rstrip('\n')          # the last record need not be followed by a line break
                 with open(path, 'w', newline='') as f:
                     f.write(text)
                 cat = guarded(csep.load_catalog, path, type=fmt)
